@@ -77,6 +77,7 @@ class Session:
         ev["tid"] = self.tid
         ev.setdefault("group", "")
         ev.setdefault("role", "")
+        ev["gprop"] = ev["group"].split(":")[0] if ev["group"] else ""
         ev.setdefault("aux", leaf("none"))
         self.events.append(ev)
         return ev
